@@ -7,7 +7,7 @@ from diffcheck import Spec, run_spec
 HARNESSES = [("h_lifecycle", "plain", ())]
 
 T_BEH = "cdfhrRpK"
-H_FAST = "cfkdbhrzsStALMOY"
+H_FAST = "cfkdbhrzsStALMOYP"
 H_SLOW = "ijmw"
 
 
@@ -52,7 +52,7 @@ class C08(Spec):
         cases.append("H 2 3 s,z,s,f")
         cases.append("H 1 4 t,t,f")
         # the response time-out and a writer that is moved / kept (process abort before the fix)
-        cases += ["H 1 2 M", "H 1 2 O", "H 1 2 Y", "H 2 2 M,O,Y,t,f"]
+        cases += ["H 1 2 M", "H 1 2 O", "H 1 2 Y", "H 2 2 M,O,Y,t,f", "H 1 2 P", "H 1 2 G,E", "H 1 2 G,E,f"]
         # data and end of stream in one readiness event (the worker is busy meanwhile), nothing written back
         cases += ["T 1 2 n,u,v", "T 1 3 n,u,v,u,v", "T 2 2 n,u,v,f"]
         # writes for a connection that has ended: Peer::send on a kept peer (T), an answer from a thread of the handler's (H)
@@ -97,6 +97,26 @@ class C08(Spec):
         if f["fd_delta"] != "0":
             return "after all clients were gone the process held %s descriptors more than its idle baseline (%s)" % (f["fd_delta"], case)
         return None
+
+    # the same harness built with AddressSanitizer, for the cases in which a peer is removed while the worker is still working on it
+    ASAN_CASES = ["H 1 2 G,E", "H 1 2 G,E,f", "H 2 2 G,E,G", "H 1 2 P", "H 1 6 P,P,P", "H 1 2 M,O,Y"]
+
+    def extra(self, rep, tier, seed):
+        exe = pv.build_harness("h_lifecycle", "asan")
+        drv = pv.build_model_driver()
+        cases = list(self.ASAN_CASES)
+        impl, _ = pv.run_parallel([exe], cases, shard=1, env={"PV_CASE_TIMEOUT": "150"})
+        model, _ = pv.run_parallel([drv, "lifecycle"], cases)
+        for c, i, m in zip(cases, impl, model):
+            what = self.oracle(c, i)
+            if not what and i != m:
+                what = "lifecycle (asan build) %s: implementation '%s', model '%s'" % (c, i[-120:], m[-120:])
+            if what:
+                rep.violation(what, {"kind": "input", "case": c, "impl_output": i, "model_output": m,
+                                     "how_to_run": "tools/check.py --property C08 --replay <this file> (the crash needs the asan build: PV variant asan)"})
+        return {"harness": "h_lifecycle (asan)", "model_area": "lifecycle", "cases": len(cases), "compared": len(cases),
+                "rule": "the idle scan's 408 for a peer completing inside that peer's own handler (a flushed stream: G with E keeping the worker busy), "
+                        "the response time-out armed and disarmed on another thread (P), moved / kept writers (M O Y): under AddressSanitizer"}
 
     def nontrivial(self, case, impl):
         return any(b in case.split()[3] for b in "rRpijmwdbhzstA")
